@@ -1,5 +1,6 @@
 import Rare.Proofs.C09C10Std
 import Rare.Proofs.C09Utf8Char
+import Rare.Proofs.C09FuelStd
 /-!
 Property C09 – template syntax: literals, escapes, quotes and nesting parse as documented.
 
@@ -73,10 +74,26 @@ theorem compile_fuel_suffices (reg : Registry) (opt : Bool) (t : List Char) (ext
     compileF (t.length + 1 + extra) reg opt t = compile reg opt t :=
   compileF_fuel_irrelevant reg opt (t.length + 1) t (by omega) _ _ (by omega) (by omega)
 
-/-- …and the out-of-fuel branch itself is never the answer: for every template and every registry whose
-    function builders do not themselves fail with the model's out-of-fuel message, `compile` (optimiser
-    off – the optimiser adds no recursion) does not return "out of fuel". -/
-theorem compile_never_out_of_fuel (reg : Registry) (hreg : NoFuelMsg reg) (t : List Char) :
+/-- …and the out-of-fuel branch itself is never the answer, **optimiser on or off**: for every template and
+    every registry whose builders neither fail with the model's out-of-fuel message nor return a stage
+    that can panic with it – given argument stages that cannot (`NoMsgReg`; with the optimiser on `Compile`
+    probes every stage it built, so a stage's panic message can become `Compile`'s) – `compile` does not
+    return "out of fuel".  The hypothesis holds for the standard registry: `compile_never_out_of_fuel_std`. -/
+theorem compile_never_out_of_fuel (reg : Registry) (opt : Bool) (hreg : NoMsgReg "out of fuel" reg) (t : List Char) :
+    compile reg opt t ≠ .error "out of fuel" :=
+  (compileF_good reg opt hreg (t.length + 1) t (by omega) _ (by omega)).1
+
+/-- The standard registry (every builder of every modelled family, plus `unmodelledBuilder` for whatever
+    other names the Go side knows) satisfies that hypothesis – each builder only hands on its arguments'
+    panic messages or uses one of its own (`unmodelled:…`, `slice bounds out of range`, `hang: …`, `fuel`):
+    for every template, optimiser on or off, the standard `Compile` model never answers "out of fuel". -/
+theorem compile_never_out_of_fuel_std (known : List String) (opt : Bool) (t : List Char) :
+    compile (stdRegistry known) opt t ≠ .error "out of fuel" :=
+  compile_never_out_of_fuel _ opt (std_noMsgReg known) t
+
+/-- The optimiser-off case needs less: no builder fails with the out-of-fuel message (whatever its
+    arguments) – the statement of the previous round, kept because its hypothesis is weaker. -/
+theorem compile_never_out_of_fuel_noopt (reg : Registry) (hreg : NoFuelMsg reg) (t : List Char) :
     compile reg false t ≠ .error "out of fuel" :=
   compileF_ne_out_of_fuel reg hreg (t.length + 1) t (by omega) _ (by omega)
 
@@ -235,6 +252,24 @@ example : Unterminated "ab {f {0} \\} c".toList := by unfold Unterminated; decid
 example : escapeLit "a{b}\\c\n".toList = "a\\{b\\}\\\\c\\n".toList := by decide
 
 example : sampleReg "nofn".toList = none := by decide
+
+/-- The probe registry satisfies the optimiser-on hypothesis too: a pure builder's stage only runs its
+    arguments. -/
+example : NoMsgReg "out of fuel" sampleReg := by
+  intro name f args h hargs
+  simp only [sampleReg, pureRegistry] at h
+  split at h
+  · cases h
+    refine ⟨by simp [pureBuilder], fun b s hb hs => ?_⟩
+    simp only [pureBuilder, Except.ok.injEq] at hb
+    subst hb; simp only [Option.some.injEq] at hs; subst hs
+    refine NoMsg.bind ?_ fun vs => .ret _
+    induction args with
+    | nil => exact .ret _
+    | cons a r ih =>
+      exact NoMsg.bind (hargs a (by simp)) fun x =>
+        NoMsg.bind (ih fun y hy => hargs y (by simp [hy])) fun y => .ret _
+  · cases h
 
 example : NoFuelMsg sampleReg := by
   intro name f args h
